@@ -863,6 +863,69 @@ pub fn gen_c09(run: &mut Run, seed: u64, thorough: bool) {
     let delays: Vec<u64> = vec![0, 1, 10, 1 << 40];
     let reps = if thorough { 25 } else { 2 };
     let mut sc = 0;
+    // directed part: every kind of clock-setting event, then ONE probe rotation just before / at / just after the
+    // boundary that event defines (a fresh gateway per probe, because a successful probe moves the clock itself)
+    for &delay in &[10u64, 1 << 40] {
+        for first in 0..5 {
+            for probe in 0..4 {
+                sc += 1;
+                g.now = 5000 + g.rng.below(1000);
+                let n_init = if first == 4 { 2 } else { 1 };
+                let init: Vec<WS> = (0..n_init).map(|_| g.mk_set(2, 0, 2)).collect();
+                g.new_gateway(&format!("c09-directed-{sc}-delay{delay}-first{first}-probe{probe}"), init, 3, delay);
+                let t0 = g.now;
+                let op = g.operator.clone();
+                // the event that (re)starts the clock; `clock` = when it happened
+                let clock = match first {
+                    0 | 4 => t0, // deployment only (one / two initial sets)
+                    1 => {
+                        // a plain rotation exactly at the boundary
+                        g.set_time(t0 + delay);
+                        let cand = g.mk_set(2, 0, 2);
+                        let latest = g.sets.last().unwrap().clone();
+                        let pf = g.honest(&latest, &cand.rotation_data_hash(&g.env));
+                        g.rotate(&cand, &pf, false, &AuthSpec::None, "directed-nobypass-at");
+                        t0 + delay
+                    }
+                    2 => {
+                        // an operator bypass INSIDE the window (one second before the boundary)
+                        g.set_time(t0 + delay - 1);
+                        let cand = g.mk_set(2, 0, 2);
+                        let latest = g.sets.last().unwrap().clone();
+                        let pf = g.honest(&latest, &cand.rotation_data_hash(&g.env));
+                        g.rotate(&cand, &pf, true, &AuthSpec::exact(&[op.clone()]), "directed-bypass-early");
+                        t0 + delay - 1
+                    }
+                    _ => {
+                        // an operator bypass after the window, then a FAILED rotation later (must not move the clock)
+                        g.set_time(t0 + delay + 5);
+                        let cand = g.mk_set(2, 0, 2);
+                        let latest = g.sets.last().unwrap().clone();
+                        let pf = g.honest(&latest, &cand.rotation_data_hash(&g.env));
+                        g.rotate(&cand, &pf, true, &AuthSpec::exact(&[op.clone()]), "directed-bypass-late");
+                        g.set_time(t0 + delay + 7);
+                        let dup = g.sets[0].clone();
+                        let latest = g.sets.last().unwrap().clone();
+                        let pf = g.honest(&latest, &dup.rotation_data_hash(&g.env));
+                        g.rotate(&dup, &pf, true, &AuthSpec::exact(&[op.clone()]), "directed-fail-duplicate");
+                        t0 + delay + 5
+                    }
+                };
+                let (t, name) = match probe {
+                    0 => (g.now, "same-instant"),
+                    1 => (clock + delay - 1, "before"),
+                    2 => (clock + delay, "at"),
+                    _ => (clock + delay + 1, "after"),
+                };
+                g.set_time(t.max(g.now));
+                let cand = g.mk_set(2, 0, 2);
+                let latest = g.sets.last().unwrap().clone();
+                let pf = g.honest(&latest, &cand.rotation_data_hash(&g.env));
+                g.rotate(&cand, &pf, false, &AuthSpec::None, &format!("directed-probe-{name}"));
+                g.run.op("gw.epoch", "q");
+            }
+        }
+    }
     for rep in 0..reps {
         for &delay in &delays {
             sc += 1;
@@ -992,7 +1055,7 @@ pub fn gen_c13(run: &mut Run, seed: u64, thorough: bool) {
     let m0 = g.fresh_msg();
     let pf = g.honest(&s0, &approve_data_hash(&g.env, &[m0.clone()]));
     g.approve(&[m0.clone()], &pf, "setup-approve");
-    let mut sizes: Vec<usize> = vec![0, 1, 31, 32, 33, 135, 136, 137, 272, 4096];
+    let mut sizes: Vec<usize> = vec![0, 1, 31, 32, 33, 135, 136, 137, 272, 4096, 8192, 8193, 16385, 65537];
     if thorough {
         sizes.push(40960);
         sizes.extend([2, 64, 100, 271, 273, 1000]);
